@@ -381,6 +381,8 @@ let ghost mut voff: nat = 0;
 let ghost mut ko: nat = 0;
 let ghost mut hb1: Seq<u8> = m.hb;
 proof { lemma_bucket_range(key, m.n); }
+@before-call find_in_hash_buckets_kt 1
+proof { assert(self.mb() == m); assert(map_ok(self.mb(), w0)); }   // holds wherever the dirty flag is set relative to the lookup
 @after-call find_in_hash_buckets_kt 1
 proof {
     gopt = match opt { Some(t) => Some((t.0.val as nat, t.1.val as nat)), None => None };
@@ -478,6 +480,8 @@ let ghost mut i0: int = 0;
 let ghost mut hb1: Seq<u8> = m.hb;
 let ghost mut kb1: Seq<u8> = m.kb;
 proof { lemma_bucket_range(key, m.n); }
+@before-call find_in_hash_buckets_kt 1
+proof { assert(self.mb() == m); assert(map_ok(self.mb(), w0)); }   // holds wherever the dirty flag is set relative to the lookup
 @after-call find_in_hash_buckets_kt 1
 proof {
     gopt = match opt { Some(t) => Some((t.0.val as nat, t.1.val as nat)), None => None };
